@@ -966,3 +966,15 @@ func typeExprName(e *Expr) string {
 	}
 	return ""
 }
+
+// spliceOffArr: b[0..n) written into a at [off, off+n).
+func (v *Verifier) spliceOffArr(a, b, off, n *Term) *Term {
+	c := v.c
+	name := "spliceoff_" + sanitize(a.Sort.Elem.Name)
+	if _, ok := c.funcs[name]; !ok {
+		c.DeclareFun(name, []*Sort{a.Sort, a.Sort, SInt, SInt}, a.Sort)
+		c.AddAxiom(name, fmt.Sprintf("(assert (forall ((a %s) (b %s) (o Int) (n Int) (i Int)) (! (= (select (%s a b o n) i) (ite (and (<= o i) (< i (+ o n))) (select b (- i o)) (select a i))) :pattern ((select (%s a b o n) i)))))",
+			a.Sort.Name, a.Sort.Name, name, name))
+	}
+	return c.App(name, a.Sort, a, b, off, n)
+}
